@@ -4,7 +4,7 @@ set -e
 export GOFLAGS=-mod=mod GOPROXY=off GOSUMDB=off GOTOOLCHAIN=local
 OUT=$1
 REPO=${VERIF_REPO:-/repo}
-V=/verif
+V=$(cd "$(dirname "$0")" && pwd)
 mkdir -p $V/.build
 if [ ! -x $V/.build/instrument ] || [ $V/tools/instrument/main.go -nt $V/.build/instrument ]; then
   (cd $V/tools/instrument && go build -o $V/.build/instrument .) || exit 2
